@@ -421,9 +421,15 @@ fn check_one<CS: BbsCiphersuite>(rep: &Report, ck: &str, c: &Case) -> CheckResul
         }
         Ok(())
     };
+    let mut combo = 0u32;
     for (an, a) in &pts {
         for (bn, b) in &pts {
             for (dn, d, k) in &ds {
+                // large statements (size sweep): the identity members always, one seventh of the rest by rotation
+                combo += 1;
+                if l > 8 && !(bool::from(a.is_identity()) && bool::from(b.is_identity())) && combo % 7 != c.seed % 7 {
+                    continue;
+                }
                 // Bbar = t * Abar is known to the attacker only when the two points are the same (t = 1)
                 // or Bbar is the identity (t = 0)
                 let t = if bool::from(b.is_identity()) { Some(Scalar::ZERO) } else if a == b { Some(Scalar::ONE) } else { None };
@@ -566,7 +572,7 @@ fn concurrent_verifiers<CS: BbsCiphersuite>(ctx: &Ctx, rep: &Report, suite: Suit
             St { pk: kp.public_key().clone(), proof, dm: idx.iter().map(|&i| msgs[i].clone()).collect(), idx, header, ph }
         })
         .collect();
-    let r = contend(ck, threads, ctx.tier.pick(60, 400), |t, round| {
+    let r = contend(ck, threads, ctx.tier.pick(36, 400), |t, round| {
         let st = &sts[t];
         let p = PoKSignature::<BBSplus<CS>>::from_bytes(&st.proof).unwrap();
         rep.eval(ck, 2);
@@ -593,6 +599,49 @@ fn concurrent_verifiers<CS: BbsCiphersuite>(ctx: &Ctx, rep: &Report, suite: Suit
     }
 }
 
+/// one point of the presentation-header length sweep
+fn ph_len_item(rep: &Report, seed: u64, pl: usize) -> CheckResult {
+    let ck = "ph-length-sweep";
+    let suite = if pl % 2 == 0 { SuiteId::Sha256 } else { SuiteId::Shake256 };
+    with_suite!(suite, CS => {
+        let kp = keypair::<CS>(&KeySpec { fixture: false, ikm: BSpec { len: 32, class: 0, seed: (seed as u32) ^ 0x5EED }, key_info: OptBytes::None, key_dst: OptBytes::None }).unwrap();
+        let (sk, pk) = (kp.private_key(), kp.public_key());
+        let l = 1 + pl % 4;
+        let msgs: Vec<Vec<u8>> = (0..l).map(|j| format!("m{}-{}", j, pl).into_bytes()).collect();
+        let idx: Vec<usize> = (0..l).step_by(2).collect();
+        let dm: Vec<Vec<u8>> = idx.iter().map(|&i| msgs[i].clone()).collect();
+        let header = b"hdr".to_vec();
+        let ph = BSpec { len: pl, class: 0, seed: (pl as u32) ^ 0x1234 }.bytes();
+        let cj = || json!({"ph_len": pl, "suite": suite.name()});
+        let herr = |site: &str, m: String| Fail { check: ck.into(), site: site.into(), msg: m, case: cj() };
+        let sig = Signature::<BBSplus<CS>>::sign(Some(&msgs), sk, pk, Some(&header)).map_err(|e| herr("sign", format!("{:?}", e)))?;
+        let proof = PoKSignature::<BBSplus<CS>>::proof_gen(pk, &sig.to_bytes(), Some(&header), Some(&ph), Some(&msgs), Some(&idx)).map_err(|e| herr("proof-gen", format!("{:?}", e)))?;
+        rep.eval(ck, 1);
+        if proof.proof_verify(pk, Some(&dm), Some(&idx), Some(&header), Some(&ph)).is_err() {
+            return rep.fail(ck, "honest-proof-rejected", format!("presentation header of {} octets", pl), cj());
+        }
+        let mut edits: Vec<(&str, Vec<u8>)> = vec![("one-zero-octet-longer", [ph.clone(), vec![0]].concat())];
+        if pl >= 1 {
+            let mut a = ph.clone();
+            *a.last_mut().unwrap() ^= 1;
+            edits.push(("last-octet", a));
+            edits.push(("one-octet-shorter", ph[..pl - 1].to_vec()));
+        }
+        if pl >= 8 {
+            let mut a = ph.clone();
+            a[pl - 8] ^= 0x40;
+            edits.push(("eighth-octet-from-the-end", a));
+        }
+        for (tag, p2) in edits {
+            rep.eval(ck, 1);
+            if proof.proof_verify(pk, Some(&dm), Some(&idx), Some(&header), Some(&p2)).is_ok() {
+                return rep.fail(ck, "accepted:ph-edit", format!("presentation header of {} octets: the proof verifies with the presentation header {}", pl, tag), json!({"ph_len": pl, "edit": tag, "suite": suite.name()}));
+            }
+        }
+        Ok(())
+    })
+}
+
 pub fn run(ctx: &Ctx, rep: &Report) -> Meta {
     concurrent_verifiers::<Bls12381Sha256>(ctx, rep, SuiteId::Sha256);
     concurrent_verifiers::<Bls12381Shake256>(ctx, rep, SuiteId::Shake256);
@@ -613,11 +662,11 @@ pub fn run(ctx: &Ctx, rep: &Report) -> Meta {
         })
         .collect();
     par_items(ctx, rep, "size-sweep", &sweep, |c| check(rep, "size-sweep", c));
-    // long data: messages, header and presentation header of 300 octets up to 1 MiB
+    // long data: messages, header and presentation header of 300 octets up to 256 KiB
     let long: Vec<Case> = [
-        (vec![70000usize, 5, 1 << 20], 0b101u32, 65537usize, 0usize),
-        (vec![300, 4097], 0b10, 0, 1 << 20),
-        (vec![65536, 65535, 3], 0b011, 1 << 20, 70000),
+        (vec![70000usize, 5, 1 << 18], 0b101u32, 65537usize, 0usize),
+        (vec![300, 4097], 0b10, 0, 1 << 18),
+        (vec![65536, 65535, 3], 0b011, 1 << 18, 70000),
         (vec![1000], 0b1, 300, 4096),
     ]
     .into_iter()
@@ -634,6 +683,16 @@ pub fn run(ctx: &Ctx, rep: &Report) -> Meta {
     })
     .collect();
     par_items(ctx, rep, "long-data", &long, |c| check(rep, "long-data", c));
+    // every presentation-header length 0..=1100 (quick) / 0..=2400: the proof must not verify for the presentation
+    // header with its last octet changed, one octet shorter or longer (challenge transcript staging, length prefixes)
+    {
+        let lens: Vec<usize> = (0..=ctx.tier.pick(1100usize, 2400usize)).collect();
+        let seed = ctx.seed;
+        par_items(ctx, rep, "ph-length-sweep", &lens, |&pl| ph_len_item(rep, seed, pl));
+        if !rep.aborted() {
+            rep.exhaustive(format!("every presentation-header length 0..={} with the tail edits", ctx.tier.pick(1100, 2400)));
+        }
+    }
     run_cases(ctx, rep, "edits-and-forgeries", ctx.tier.pick(64, 800), 100, strat, |c| check(rep, "edits-and-forgeries", c));
     Meta {
         rule: "honest (pk, sig, msgs L=1..8, D, header, ph, proof) then (a) statement edits: every disclosed message changed / dropped, every disclosed index moved to every other position (as given and re-sorted), \
@@ -641,7 +700,7 @@ pub fn run(ctx: &Ctx, rep: &Report) -> Meta {
                (b) single-bit flips of the proof octets (all bits for the all-bit-flips proofs with U in {0,1,3}; 96 sampled bits otherwise); \
                (c) attacker programs from public data only: Abar, Bbar in {O, Bv, P1, Q1, H1, rnd}^2 x D in {O, Bv, k*Bv, P1, rnd} with responses solving T1/T2 where possible, \
                the (P, t*P, k*Bv) family that only the pairing stops, points of cofactor order Q outside the subgroup (Abar = Q with Bbar in {-Q, Q, O, 2Q}, P+-Q, D = Bv + Q: pairs and triples that cancel in a sum), each as octets and as a serde-built object, plain and blind verifier; negative control t = sk must be accepted; \
-               size sweep over L in 9..=40 (quick) / 9..=100 (thorough) and 63..65 with sampled positions; long-data: messages, headers and presentation headers of 300 octets to 1 MiB, edits at the first / last octet, one octet shorter / longer, a leading zero octet; concurrent-verifiers: 16 threads verifying their own honest proof and an edited statement in turn with transcripts above 1 KiB; half of the cases after a warm-up history; oracle: every edited / flipped / forged proof is rejected; non-trivial = honest case with all three groups executed; evaluations = rejected-verification checks"
+               size sweep over L in 9..=40 (quick) / 9..=100 (thorough) and 63..65 with sampled positions; ph-length-sweep: every presentation-header length 0..=1100 (quick) / 2400 with tail edits; long-data: messages, headers and presentation headers of 300 octets to 256 KiB, edits at the first / last octet, one octet shorter / longer, a leading zero octet; concurrent-verifiers: 16 threads verifying their own honest proof and an edited statement in turn with transcripts above 1 KiB; half of the cases after a warm-up history; oracle: every edited / flipped / forged proof is rejected; non-trivial = honest case with all three groups executed; evaluations = rejected-verification checks"
             .into(),
         assumptions: vec![
             "forgery families are the named ones (identity / Bv / P1 / generators / random, responses cancelling the recomputation); other adversaries are not covered".into(),
@@ -656,6 +715,10 @@ pub fn replay(ctx: &Ctx, rep: &Report, ck: &str, case: &Value) -> CheckResult {
         let before = rep.violation_count();
         concurrent_verifiers::<Bls12381Sha256>(ctx, rep, SuiteId::Sha256); concurrent_verifiers::<Bls12381Shake256>(ctx, rep, SuiteId::Shake256);
         return if rep.violation_count() > before { Err(Fail { check: ck.into(), site: "reproduced-under-contention".into(), msg: "the contention check fails again".into(), case: case.clone() }) } else { Ok(()) };
+    }
+    if ck == "ph-length-sweep" {
+        let pl = case["ph_len"].as_u64().or(case["case"].as_u64()).ok_or_else(|| Fail { check: ck.into(), site: "replay-parse".into(), msg: "no ph_len in the case".into(), case: case.clone() })?;
+        return ph_len_item(rep, ctx.seed, pl as usize);
     }
     let c: Case = serde_json::from_value(case["case"].clone()).map_err(|e| Fail {
         check: ck.into(),
